@@ -426,6 +426,8 @@ PLANS = {
                     MC("MCCursor_t9", "MCCursor_t9_fixed.cfg", workers=8, quick=False, timeout=7200),
                     MC("MCCursor_t48", "MCCursor_t48_fixed.cfg", workers=8, quick=False, timeout=7200)],
                 gen=[G("history", 160, 6000, "TraceCursor", "TraceCursor.cfg"),
+                     # histories containing a call that failed (one-off source failure): absolute moves afterwards are exact
+                     G("history_faulty", 120, 3000, "TraceCursor", "TraceCursor.cfg"),
                      # exhaustive exploration of the implementation's own reachable cursor states (hook H1)
                      G("explore", 10, 10, "TraceCursor", "TraceCursor.cfg", timeout=7200, tlc_timeout=7200)],
                 extra=[cursor_model([15, 59], [0, 2, 15, 59, 50], 200, 12)]),
